@@ -54,8 +54,9 @@ NOT covered by this tier
   sqrt(2), sqrt(3) (+-1e-9, +-1 ulp of integer radii): the spec uses sqrt(sum of integer squares) < radius literally.
 * non-binary masks (values other than 0/1/True/False), radius <= 0 for `get_volume_searchlight` (the in-mask fraction of an
   empty searchlight is undefined), centres outside the volume, zero centres for `get_searchlight_RDMs`.
-* RDM methods that need a cross-validation descriptor or a noise precision (crossnobis, poisson_cv, mahalanobis with noise):
-  `get_searchlight_RDMs` has no argument to pass them.
+* RDM methods with an explicit cross-validation descriptor or a noise precision (poisson_cv, mahalanobis with noise):
+  `get_searchlight_RDMs` has no argument to pass them.  crossnobis is covered with its DEFAULT folds on balanced designs and
+  equal-size searchlights.
 * real worker schedules: only the schedules that happen with the delays above on this machine are observed; order
   independence in general rests on joblib's ordering contract (tier A assumption).
 
@@ -210,8 +211,33 @@ def _spec_cond_means(X, events):
     return np.array([np.mean([X[i] for i in range(len(ev)) if ev[i] == c], axis=0) for c in conds]), conds
 
 
+def _spec_crossnobis_default_folds(X, events):
+    """crossnobis with the DEFAULT folds (no argument of get_searchlight_RDMs names a fold descriptor): the k-th occurrence of a
+    condition is fold k; identity precision; value = mean over ordered pairs of distinct folds (m, n) of
+    (x_am - x_bm) . (x_an - x_bn) / P -- balanced designs only (every condition equally often)"""
+    X = np.asarray(X, dtype=float)
+    ev = list(events)
+    conds = sorted(set(ev))
+    seen, fold = {}, []
+    for e in ev:
+        fold.append(seen.get(e, 0))
+        seen[e] = fold[-1] + 1
+    M = max(fold) + 1
+    P = X.shape[1]
+    pat = {(c, m): X[[i for i in range(len(ev)) if ev[i] == c and fold[i] == m][0]] for c in conds for m in range(M)}
+    out = []
+    for i in range(len(conds)):
+        for j in range(i + 1, len(conds)):
+            a, b = conds[i], conds[j]
+            vals = [float(np.sum((pat[a, m] - pat[b, m]) * (pat[a, n] - pat[b, n]))) / P for m in range(M) for n in range(M) if m != n]
+            out.append(sum(vals) / len(vals))
+    return np.array(out, dtype=float)
+
+
 def _spec_rdm_vector(X, events, method):
     """upper-triangular (row-major, i<j) dissimilarity vector of the condition means of X (observations x channels)"""
+    if method == 'crossnobis':
+        return _spec_crossnobis_default_folds(X, events)
     M, conds = _spec_cond_means(np.asarray(X, dtype=float), events)
     C, P = M.shape
     if method == 'poisson':
@@ -894,6 +920,14 @@ def tier_c(run, thorough):
                                 centre_order='sorted' if (ek + n_centers) % 2 else 'unsorted',
                                 nb_as='array' if ek % 2 else 'list')
                     bd.check(orc_sl_rdms, case, f'unchunked,{method}', function='get_searchlight_RDMs')
+    # cross-validated distances with the default folds (k-th occurrence of a condition = fold k): balanced designs with 8 or more
+    # observations in shuffled / interleaved order, equal-size searchlights
+    for k, (events, n_cond, reps, order) in enumerate([('int', 4, 2, 'shuffled'), ('str', 3, 3, 'shuffled'), ('int-gaps', 5, 2, 'interleaved'),
+                                                       ('str-long', 4, 3, 'shuffled'), ('int', 6, 4, 'shuffled')]):
+        for n_centers in ((3, 40) if thorough else (3,) if k else (3, 40)):
+            bd.check(orc_sl_rdms, dict(seed=900 + k, n_centers=n_centers, method='crossnobis', events=events, n_cond=n_cond, reps=reps,
+                                       nb_min=4, nb_max=4, event_order=order, centre_order=('sorted', 'unsorted')[k % 2]),
+                     'unchunked,crossnobis,default-folds', function='get_searchlight_RDMs')
     # typed data (image files hold int16 / uint8 / float32): the result is the float64 formula on the stored values.
     # float32 only with one observation per event (numpy averages float32 rows in float32: a precision question, not claimed)
     for k, (dt, events, n_cond, reps) in enumerate([('int16', 'int', 4, 1), ('int16', 'str', 3, 2), ('uint8', 'int-gaps', 4, 1),
